@@ -87,6 +87,7 @@ type In struct {
 	Label     string            `json:"label,omitempty"`
 	M         *MapD             `json:"m,omitempty"`
 	Docs      []json.RawMessage `json:"docs,omitempty"`
+	StdDocs   bool              `json:"std_docs,omitempty"` // the fixed documents of the sweep
 	StructDoc int               `json:"struct_doc,omitempty"`
 	Reopen    bool              `json:"reopen,omitempty"`
 	Root      string            `json:"root,omitempty"`
@@ -721,7 +722,11 @@ func execRound(in In) (res vh.Result) {
 	// MapDocument on the original and the reparsed mapping (implementation against itself)
 	if uerr == nil && m2 != nil {
 		var docs []interface{}
-		for _, raw := range in.Docs {
+		raws := in.Docs
+		if in.StdDocs {
+			raws = append(sweepDocs(), raws...)
+		}
+		for _, raw := range raws {
 			var v interface{}
 			if json.Unmarshal(raw, &v) == nil {
 				docs = append(docs, v)
@@ -767,9 +772,13 @@ func execRound(in In) (res vh.Result) {
 				rerr = fmt.Errorf("create: %v", err)
 				return
 			}
-			if len(in.Docs) > 0 {
+			rdocs := in.Docs
+			if in.StdDocs {
+				rdocs = append(sweepDocs(), rdocs...)
+			}
+			if len(rdocs) > 0 {
 				var v interface{}
-				if json.Unmarshal(in.Docs[0], &v) == nil {
+				if json.Unmarshal(rdocs[0], &v) == nil {
 					_ = idx.Index("d0", v)
 				}
 			}
@@ -783,9 +792,9 @@ func execRound(in In) (res vh.Result) {
 				return
 			}
 			jr, rerr = json.Marshal(idx2.Mapping())
-			if len(in.Docs) > 1 {
+			if len(rdocs) > 1 {
 				var v interface{}
-				if json.Unmarshal(in.Docs[1], &v) == nil {
+				if json.Unmarshal(rdocs[1], &v) == nil {
 					_ = idx2.Index("d1", v)
 				}
 			}
@@ -1465,7 +1474,7 @@ func genDecode(r *vrand.R, m *MapD) (In, bool) {
 func gen(f vh.Flags, r *vrand.R, emit func(In)) {
 	// 1. systematic sweep: every option of every level, one at a time
 	for _, s := range sweeps() {
-		emit(In{Kind: "round", Label: s.label, M: s.m, Docs: sweepDocs(), StructDoc: 2, Reopen: true})
+		emit(In{Kind: "round", Label: s.label, M: s.m, StdDocs: true, StructDoc: 2, Reopen: true})
 	}
 	// 2. random mapping trees with random documents
 	n := f.N(300, 12000)
